@@ -51,6 +51,12 @@ def fn_spans(text):
                     if tx in ("(", "["):
                         j = match_close(toks, j)
                     elif tx == "{":
+                        # a brace block inside requires/ensures (`p ==> { &&& a &&& b },`) is not the body:
+                        # the body is the brace group that is not followed by a `,`
+                        c = match_close(toks, j)
+                        if c + 1 < len(toks) and toks[c + 1].text == ",":
+                            j = c + 1
+                            continue
                         body = j
                         break
                     elif tx == ";":
